@@ -231,8 +231,10 @@ def check(spec, ctx):
             ctx.fail(f"buffered {kind} has unexpected type {res.type}", spec, res.type, "Polygon|MultiPolygon", kind="result_type")
         # bounds growth (clipped at the domain edges)
         ext_t, ext_f = ob[2] - ob[0], ob[3] - ob[1]
-        et = 1e-9 * (b_t + ext_t) + 64 * math.ulp(max(ob[2] + b_t, 1e-300))
-        ef = 1e-9 * (b_f + ext_f) + 64 * math.ulp(max(ob[3] + b_f, 1e-300))
+        # 1e-6 of the buffer on top of the cos(pi/32) cap allowance (4.8e-3): GEOS was seen 1.2e-9 of the buffer short of the exact
+        # inscribed-cap extent when an axis falls right between two cap vertices (buffer 1e5 s, thorough tier)
+        et = 1e-6 * (b_t + ext_t) + 64 * math.ulp(max(ob[2] + b_t, 1e-300))
+        ef = 1e-6 * (b_f + ext_f) + 64 * math.ulp(max(ob[3] + b_f, 1e-300))
         want = [max(0.0, ob[0] - THETA * b_t), max(0.0, ob[1] - THETA * b_f), ob[2] + THETA * b_t, min(float(MAXF), ob[3] + THETA * b_f)]
         if rb[0] > want[0] + et or rb[2] < want[2] - et or rb[1] > want[1] + ef or rb[3] < want[3] - ef:
             ctx.fail(
